@@ -194,6 +194,12 @@ func (g *G) Bin(n int) []byte {
 		}
 	}
 	b := g.T.Bytes(n)
+	if n >= 3 && n <= 65535 && g.T.Bool(1, 12) {
+		// binary data that describes itself: it begins with its own remaining length as
+		// a two-byte integer (what many application payloads do) - to a careless eye an
+		// MQTT length-prefixed field that is already complete
+		b[0], b[1] = byte((n-2)>>8), byte(n-2)
+	}
 	if n <= 24 && len(g.bins) < 12 {
 		g.bins = append(g.bins, b)
 	}
